@@ -21,7 +21,7 @@ NCPU = os.cpu_count() or 8
 
 T0 = time.time()
 # sanitizer runtime options for every ASan+UBSan harness run (never combined with `ulimit -v`: ASan reserves TBs of shadow)
-SAN_ENV = {"ASAN_OPTIONS": "detect_leaks=0:abort_on_error=0:allocator_may_return_null=1:max_allocation_size_mb=3072:hard_rss_limit_mb=8000",
+SAN_ENV = {"ASAN_OPTIONS": "detect_leaks=0:abort_on_error=0:allocator_may_return_null=1:max_allocation_size_mb=64:hard_rss_limit_mb=6000",
            "UBSAN_OPTIONS": "print_stacktrace=1:halt_on_error=1"}
 
 
